@@ -27,8 +27,8 @@ async def scan_resources(
         _read_new_apis(groups=groups, settings=settings, logger=logger),
     }
     resources: set[references.Resource] = set()
-    for coro in asyncio.as_completed(coros):
-        resources.update(await coro)
+    for result in await asyncio.gather(*coros):  # unlike as_completed(), cancelled with the caller
+        resources.update(result)
     return resources
 
 
@@ -52,8 +52,8 @@ async def _read_old_api(
             )
             for version_name in rsp['versions']
         }
-        for coro in asyncio.as_completed(coros):
-            resources.update(await coro)
+        for result in await asyncio.gather(*coros):  # unlike as_completed(), cancelled with the caller
+            resources.update(result)
     return resources
 
 
@@ -79,8 +79,8 @@ async def _read_new_apis(
             for group_dat in items
             for version in group_dat['versions']
         }
-        for coro in asyncio.as_completed(coros):
-            resources.update(await coro)
+        for result in await asyncio.gather(*coros):  # unlike as_completed(), cancelled with the caller
+            resources.update(result)
     return resources
 
 
